@@ -260,6 +260,10 @@ pub fn evaluate_cases(ctx: &Ctx, rep: &mut Report, cases: &[Case], hash_only: bo
             }
         }
     }
+    // compiled and evaluated in chunks so that the observation strings of a thorough run
+    // (several GB) are never held in memory at once
+    let all_idx = run_idx;
+    for run_idx in all_idx.chunks(4000) {
     let rcases: Vec<runner::Case> = run_idx.iter().map(|&i| runner::Case { code: program(&cases[i].ts, &cases[i].derived, cases[i].entry) }).collect();
     let res = runner::run_cases(&rcases, &runner::Opts::run(&rep.id.to_lowercase()));
     for (k, &i) in run_idx.iter().enumerate() {
@@ -365,6 +369,7 @@ pub fn evaluate_cases(ctx: &Ctx, rep: &mut Report, cases: &[Case], hash_only: bo
         } else if rep.samples.len() < 4 && has_attr && c.ts.variants.iter().map(|v| v.fields.len()).sum::<usize>() >= 2 {
             rep.sample(json!({"entry": c.entry.name(), "derive_ex": names(&c.derived), "item": items[i], "values": n, "pairs": n * n, "observed_prefix": out.chars().take(120).collect::<String>()}));
         }
+    }
     }
     rep.set("compiled_and_executed", json!(rep.validated));
     rep.set("rustc_invocations", json!(runner::STATS.rustc_invocations.load(std::sync::atomic::Ordering::Relaxed)));
